@@ -138,6 +138,12 @@ def quoted_parameter_pairs(chk):
             cid = "qp_%s_%d" % (nm, mask)
             cases.append(rel.case(cid, "JSIGHT 0.3\n" + tpl % tuple(q)))
             meta[cid] = ("qp_%s_b" % nm, nm, base, "JSIGHT 0.3\n" + tpl % tuple(q))
+    from common import b64
+    incf = {"inc.jst": b64("TYPE @zinc any\n")}
+    ib, iq = "JSIGHT 0.3\nINCLUDE inc.jst\nGET /zq\n  200 any\n", 'JSIGHT 0.3\nINCLUDE "inc.jst"\nGET /zq\n  200 any\n'
+    cases.append({"id": "qp_include_b", "files": dict(incf, **{"main.jst": b64(ib)}), "root": "main.jst"})
+    cases.append({"id": "qp_include_1", "files": dict(incf, **{"main.jst": b64(iq)}), "root": "main.jst"})
+    meta["qp_include_1"] = ("qp_include_b", "include_file_name", ib, iq)
     obs = harness("run", cases)
     for cid, (bid, nm, base, text) in meta.items():
         a, b = obs[bid], obs[cid]
